@@ -53,7 +53,8 @@ TIERS = {
     "thorough": {"budget_s": 1500, "stride": 1},
 }
 EXHAUSTIVE = {"thorough": True}
-DETERMINISM_SLICE = 0
+DETERMINISM_SLICE = 6
+ENUM_ONLY = True  # run() takes enumerated items only; the determinism self-test draws a fixed spread of them
 STEP_K = 200
 STEP_C = 5000
 _ready = False
